@@ -333,8 +333,43 @@ def check_field_trait_methods(rep, cfg, loc):
     return n
 
 
+def _conjuncts(t):
+    if t.op == "and":
+        return _conjuncts(t.args[0]) + _conjuncts(t.args[1])
+    return [t]
+
+
+def fold_limb_tests(cs, f):
+    """in a list of conjuncts, a complete set of tests `limb_k(mont(d)) == 0` over every 32-bit limb k of the field is d == 0
+    (the Montgomery map is a bijection fixing 0); with d = a - b that is a == b.  The single test replaces the set at the position
+    of its last member; an incomplete set is left as it is."""
+    nl = LIMBS64[f] * 2
+    groups = {}
+    for i, c in enumerate(cs):
+        if c.op == "eq" and c.args[1] is lit(0) and c.args[0].op == "index" and c.args[0].args[0].op == "mont" and Tm.is_lit(c.args[0].args[1]):
+            groups.setdefault(c.args[0].args[0].args[0], {})[c.args[0].args[1].args[0]] = i
+    out = list(cs)
+    for d, ks in groups.items():
+        if sorted(ks) == list(range(nl)):
+            last = max(ks.values())
+            a, b = (d.args if d.op == "sub" else (d, felem(f, 0)))
+            out[last] = Tm.eq(a, b)
+            for k, i in ks.items():
+                if i != last:
+                    out[i] = None
+    return [c for c in out if c is not None]
+
+
 def simplify_eq(t, f):
-    """u32 equality: nonzero(sub(a,b)) == 0  <=>  a == b"""
+    """u32 equality: nonzero(sub(a,b)) == 0  <=>  a == b; likewise the conjunction of all per-limb zero tests of a - b"""
+    if t.op == "and":
+        cs = fold_limb_tests(_conjuncts(t), f)
+        r = cs[0]
+        for c in cs[1:]:
+            r = Tm.and_(r, c)
+        return r
+    if t.op == "not" and t.args[0].op == "and":
+        return Tm.not_(simplify_eq(t.args[0], f))
     if t.op == "eq" and t.args[1] is lit(0) and t.args[0].op == "ite":
         x = t.args[0]
         # ite(eq(sub(a,b),0), 0, nonzero_word(..)) == 0
@@ -368,6 +403,9 @@ def check_inverse(rep, cfg, loc):
         def is_zero_guard(c):
             c = simplify_eq(c, f)
             return c is Tm.eq(S_, zero) or c is Tm.eq(zero, S_)
+        # a guard spelled limb by limb arrives as separate path conjuncts: fold a complete set back into the one test it is
+        none_flows = [(fold_limb_tests(list(pc), f), v) for pc, v in none_flows]
+        some_flows = [(fold_limb_tests(list(pc), f), v) for pc, v in some_flows]
         g_ok = any(pc and is_zero_guard(pc[-1]) for pc, v in none_flows) and all(is_zero_guard(pc[-1]) for pc, v in none_flows if pc)
         s_ok = bool(some_flows) and all(any(simplify_eq(c, f) is Tm.not_(Tm.eq(S_, zero)) or simplify_eq(Tm.not_(c), f) is Tm.eq(S_, zero) for c in pc) for pc, v in some_flows)
         rep.ob(key + ":zero", g_ok and s_ok,
@@ -540,6 +578,20 @@ def check_select(rep, cfg, loc):
                     v.op == "call" and "ct_eq" in v.args[0] and set(v.args[1:]) == {mk("mont", S_), mk("mont", O_)})
                 why = Tm.show(v, maxdepth=4)
             rep.ob("SELECT/%s/%s" % (cfg.name, norm_path(path)), ok, "ct_eq must compare all limbs of both operands: %s" % why, where=cfg.where(path))
+        if tr == "core::cmp::PartialEq" and name == "eq":
+            m = re.match(r"^fields::(fq|fr|fp)::u(64|32)::wrapper::F[qrp]$", E.strip_lt(b.get("impl_self", "")))
+            if not m:
+                continue
+            f, be = m.group(1), m.group(2)
+            if (be == "64") != (cfg.name in ("A", "R")):
+                continue
+            out, names = run_deep(cfg, path, loc)
+            S_, O_ = mk("param", "self"), mk("param", "other")
+            v = simplify_eq(out.value, f)
+            ok = (v is Tm.eq(S_, O_) or v is Tm.eq(O_, S_) or v is Tm.eq(field(S_, "0"), field(O_, "0")) or v is Tm.eq(field(O_, "0"), field(S_, "0"))) and not out.unmodelled
+            rep.ob("SELECT/%s/%s" % (cfg.name, norm_path(path)), ok,
+                   "== on field elements must be equality of the two operands (all limbs of self - other, or the backend's own ==): %s" % Tm.show(v, maxdepth=5),
+                   where=cfg.where(path))
 
 
 # ---- exponentiation -----------------------------------------------------------------------------------------------
